@@ -38,17 +38,19 @@ EPOCH = 1.7e9
 _SHARE_BY_CLASS = ("MachineModel", "ArchSemantics", "ISASemantics", "ParserX86ATT", "ParserAArch64")
 SPEEDS = (1e-5, 3e-5, 1e-4, 3e-4, 1e-3)  # simulated seconds per traced line
 START_DELAYS = (0.0, 0.0, 0.003, 0.05, 0.19, 0.35)
+RTTS = (0.0, 0.0, 1e-4, 1e-3, 1e-2)  # simulated seconds per manager round trip
 
 
 class World:
     """Per-run process table and configuration shared by the stand-ins."""
 
-    def __init__(self, sim, ncpu=4, shared=(), speeds=SPEEDS, start_delays=START_DELAYS):
+    def __init__(self, sim, ncpu=4, shared=(), speeds=SPEEDS, start_delays=START_DELAYS, rtt=0.0):
         self.sim = sim
         self.ncpu = ncpu
         self.shared = list(shared)  # objects memo-shared (read-only) with workers
         self.speeds = speeds
         self.start_delays = start_delays
+        self.rtt = rtt
         self.procs = []
         self.managers = []
         self.next_pid = 1001
@@ -243,7 +245,7 @@ class SimListProxy:
         sim.wait_until(lambda: req.applied or req.dropped, "mgr-wait:%s" % op)
         if req.dropped:
             raise EOFError("manager connection closed")
-        sim.yield_(0.0, "mgr-ack:%s" % op)
+        sim.yield_(mgr._w.rtt, "mgr-ack:%s" % op)
         me.attrs["acks"] = me.attrs.get("acks", 0) + 1
         me.attrs["lines_at_ack"] = me.lines
         if isinstance(req.result, BaseException):
